@@ -214,6 +214,8 @@ var withTSAndSampleService = WithPreRequest(func(w http.ResponseWriter, r *http.
 		return err
 	}
 	ctx = context.WithValue(r.Context(), "splService", svc)
+	// the node is chosen once per request: samples, series and profiles have to reach the same server
+	dsn = svc.GetNodeName()
 
 	svc, err = Registry.GetTimeSeriesService(dsn.(string))
 	if err != nil {
@@ -241,6 +243,8 @@ var withTracesService = WithPreRequest(func(w http.ResponseWriter, r *http.Reque
 	}
 
 	ctx := context.WithValue(r.Context(), "spanAttrsService", svc)
+	// the node is chosen once per request: spans and their attributes have to reach the same server
+	dsn = svc.GetNodeName()
 
 	svc, err = Registry.GetSpansService(dsn.(string))
 	if err != nil {
